@@ -58,6 +58,14 @@ namespace std {
 #include "TFEL/Math/General/UnaryResultType.hxx"
 #include "TFEL/Math/General/ResultType.hxx"
 #include "TFEL/Math/power.hxx"
+#include "TFEL/Math/General/IEEE754.hxx"
+
+namespace tfel::math::ieee754 {
+  // qualified calls ieee754::isnan(x) etc. on a symbolic real: the reals have no NaN and no infinities
+  inline bool isnan(const vsym::sym&) { return false; }
+  inline bool isfinite(const vsym::sym&) { return true; }
+  inline int fpclassify(const vsym::sym&) { return FP_NORMAL; }
+}  // namespace tfel::math::ieee754
 
 namespace tfel::math {
   // qualified calls tfel::math::power<N>(x) / power<N,D>(x): the TFEL overloads are constrained to
